@@ -6,16 +6,21 @@ validator accepts".
 a good path.  This file proves the converse over the same model (`Model.X509`, x509/verify.go +
 cert_pool.go): every good path is found, as long as the search is not cut by its own work budget.
 
-What "good path" has to mean for this to be true of the code that exists (all three are visible in
-the statements below):
-* the key-identifier prefilter of `findVerifiedParents` (cert_pool.go `findVerifiedParents`): when
-  the child has an AuthorityKeyId and SOME certificate of the pool carries it as SubjectKeyId, only
-  those certificates are candidates (the lookup by subject name is skipped), so a correctly signing
-  parent with another/absent SubjectKeyId is not found — `KeyIdOK`;
+What "good path" has to mean for this to be true of the code that exists (both are visible in the
+statements below):
 * when the leaf itself is (by `Equal`) in the root pool, `Verify` considers the chain `[leaf]` only;
 * the budget: the recursion is cut when the step counter reaches 0.  Because the counter is threaded
   through the whole depth-first search and only decreases (`buildChains_budget`), "the search was
   never cut" is the single condition `0 < (buildChains …).2` on the counter it returns.
+Key identifiers do NOT appear in it any more.  Up to round 8 the model (like cert_pool.go
+`findVerifiedParents` as found) consulted the subject-name index only when the lookup by the child's
+AuthorityKeyId came back empty, and every completeness statement here carried a side condition
+(`KeyIdPath`: no link of the path is hidden by a pool member with the matching SubjectKeyId).  That was
+the defect repaired in round 9 (an unusable certificate with the matching key id, e.g. the expired
+predecessor of a renewed CA certificate, hid the usable one).  With the repaired rule - key-id matches
+first, then the remaining name matches - the side condition is gone from `buildChains_complete`,
+`verify_complete`, `GoodPath`, `verify_chains_exact`, `verify_iff_exists_good_path`; pool monotonicity
+(`findVerifiedParents_mono`, `buildChains_mono`, `verify_mono`) is new.
 The recursion depth (`fuel = |roots| + |intermediates| + 2` in `verify`) needs no hypothesis: a
 good suffix never repeats an id, so it has at most `|intermediates| + 1` elements
 (`goodSuffix_length_le`).
@@ -26,90 +31,51 @@ open Model.X509
 
 /-! ### 1. `findVerifiedParents` -/
 
-/-- The candidate selection of `findVerifiedParents`, exactly: `p` is a candidate parent of `c` in
-    `pool` iff either `c` has an AuthorityKeyId equal to `p`'s SubjectKeyId, or `p`'s subject is
-    `c`'s issuer and the lookup by key id came back empty (`c` has no AuthorityKeyId, or nobody in the
-    pool has it as SubjectKeyId). -/
-def Selected (pool : List Cert) (c p : Cert) : Prop :=
-  (∃ k, c.aki = some k ∧ p.ski = some k) ∨
-  (p.subj = c.iss ∧ (c.aki = none ∨ ∀ q ∈ pool, q.ski ≠ c.aki))
+/-- The candidate selection of `findVerifiedParents`, exactly: `p` is a candidate parent of `c` iff
+    `c` has an AuthorityKeyId equal to `p`'s SubjectKeyId, or `p`'s subject is `c`'s issuer.  (It no longer
+    depends on the rest of the pool.) -/
+def Selected (c p : Cert) : Prop :=
+  (∃ k, c.aki = some k ∧ p.ski = some k) ∨ p.subj = c.iss
+
+theorem keyIdMatch_iff (c p : Cert) : keyIdMatch c p = true ↔ ∃ k, c.aki = some k ∧ p.ski = some k := by
+  unfold keyIdMatch
+  cases hc : c.aki with
+  | none => simp
+  | some k => simp
 
 /-- exact characterization of `findVerifiedParents` (both directions) -/
 theorem mem_findVerifiedParents_iff (pool : List Cert) (c p : Cert) :
-    p ∈ findVerifiedParents pool c ↔ p ∈ pool ∧ checkSigFrom c p = true ∧ Selected pool c p := by
+    p ∈ findVerifiedParents pool c ↔ p ∈ pool ∧ checkSigFrom c p = true ∧ Selected c p := by
   unfold findVerifiedParents Selected
-  cases hc : c.aki with
-  | none =>
-    simp only [List.isEmpty_nil, if_true, List.mem_filter, beq_iff_eq]
-    constructor
-    · rintro ⟨⟨h1, h2⟩, h3⟩; exact ⟨h1, h3, Or.inr ⟨h2, Or.inl trivial⟩⟩
-    · rintro ⟨h1, h3, h | h⟩
-      · obtain ⟨k, hk, _⟩ := h; cases hk
-      · exact ⟨⟨h1, h.1⟩, h3⟩
-  | some k =>
-    simp only
-    by_cases he : (pool.filter (fun (p : Cert) => p.ski == some k)).isEmpty = true
-    · simp only [he, if_true, List.mem_filter, beq_iff_eq]
-      have hno : ∀ q ∈ pool, q.ski ≠ some k := by
-        intro q hq hqk
-        have : q ∈ pool.filter (fun (p : Cert) => p.ski == some k) := by
-          simp [List.mem_filter, hq, hqk]
-        rw [List.isEmpty_iff] at he
-        rw [he] at this
-        cases this
-      constructor
-      · rintro ⟨⟨h1, h2⟩, h3⟩; exact ⟨h1, h3, Or.inr ⟨h2, Or.inr hno⟩⟩
-      · rintro ⟨h1, h3, h | h⟩
-        · obtain ⟨k', hk, hp⟩ := h
-          cases hk
-          exact absurd hp (hno p h1)
-        · exact ⟨⟨h1, h.1⟩, h3⟩
-    · simp only [he, Bool.false_eq_true, if_false, List.mem_filter, beq_iff_eq]
-      constructor
-      · rintro ⟨⟨h1, h2⟩, h3⟩; exact ⟨h1, h3, Or.inl ⟨k, rfl, h2⟩⟩
-      · rintro ⟨h1, h3, h | h⟩
-        · obtain ⟨k', hk, hp⟩ := h
-          cases hk
-          exact ⟨⟨h1, hp⟩, h3⟩
-        · exfalso
-          rcases h.2 with h2 | h2
-          · cases h2
-          · apply he
-            rw [List.isEmpty_iff]
-            apply List.eq_nil_iff_forall_not_mem.mpr
-            intro q hq
-            simp only [List.mem_filter, beq_iff_eq] at hq
-            exact h2 q hq.1 hq.2
+  rw [← keyIdMatch_iff]
+  simp only [List.mem_filter, List.mem_append, Bool.and_eq_true, beq_iff_eq, Bool.not_eq_true']
+  constructor
+  · rintro ⟨⟨h1, h2⟩ | ⟨h1, h2, _⟩, h3⟩
+    · exact ⟨h1, h3, Or.inl h2⟩
+    · exact ⟨h1, h3, Or.inr h2⟩
+  · rintro ⟨h1, h3, h⟩
+    refine ⟨?_, h3⟩
+    by_cases hk : keyIdMatch c p = true
+    · exact Or.inl ⟨h1, hk⟩
+    · rcases h with h | h
+      · exact absurd h hk
+      · exact Or.inr ⟨h1, h, by simpa using hk⟩
 
-/-- `findVerifiedParents_complete`: a pool member that correctly signs `c` (`CheckSignatureFrom`
-    succeeds) IS returned, provided the candidate prefilter selects it (`Selected`, see there — this
-    is the exact side condition, by `mem_findVerifiedParents_iff`). -/
+/-- `findVerifiedParents_complete` (the repaired behaviour): a pool member that carries the child's issuer
+    name and correctly signs `c` (`CheckSignatureFrom` succeeds) IS returned - whatever key identifiers the
+    child, the parent and the other pool members carry.  False for the rule as found: there a pool member whose
+    SubjectKeyId equals the child's AuthorityKeyId hid every parent with another or no SubjectKeyId. -/
 theorem findVerifiedParents_complete (pool : List Cert) (c p : Cert)
-    (hp : p ∈ pool) (hs : checkSigFrom c p = true) (hsel : Selected pool c p) :
+    (hp : p ∈ pool) (hs : checkSigFrom c p = true) (hn : p.subj = c.iss) :
     p ∈ findVerifiedParents pool c :=
-  (mem_findVerifiedParents_iff pool c p).mpr ⟨hp, hs, hsel⟩
+  (mem_findVerifiedParents_iff pool c p).mpr ⟨hp, hs, Or.inr hn⟩
 
-/-- The part of `Selected` that is not already implied by name chaining (`isValid` checks
-    `child.Issuer = parent.Subject` anyway): the key identifiers do not rule `p` out.  Either the child
-    has no AuthorityKeyId, or `p`'s SubjectKeyId equals it, or no certificate of the pool has the
-    child's AuthorityKeyId as SubjectKeyId (then the code falls back to the lookup by name). -/
-def KeyIdOK (pool : List Cert) (c p : Cert) : Prop :=
-  c.aki = none ∨ p.ski = c.aki ∨ ∀ q ∈ pool, q.ski ≠ c.aki
-
-theorem selected_of_keyIdOK (pool : List Cert) (c p : Cert) (hn : p.subj = c.iss) (hk : KeyIdOK pool c p) :
-    Selected pool c p := by
-  rcases hk with h | h | h
-  · exact Or.inr ⟨hn, Or.inl h⟩
-  · cases hc : c.aki with
-    | none => exact Or.inr ⟨hn, Or.inl hc⟩
-    | some k => exact Or.inl ⟨k, hc, by rw [h, hc]⟩
-  · exact Or.inr ⟨hn, Or.inr h⟩
-
-theorem keyIdOK_of_selected (pool : List Cert) (c p : Cert) (h : Selected pool c p) : KeyIdOK pool c p := by
-  rcases h with ⟨k, hk, hp⟩ | ⟨_, h | h⟩
-  · exact Or.inr (Or.inl (by rw [hk, hp]))
-  · exact Or.inl h
-  · exact Or.inr (Or.inr h)
+/-- `findVerifiedParents_mono`: adding certificates to a pool never removes a verified parent. -/
+theorem findVerifiedParents_mono (pool pool2 : List Cert) (c : Cert) (h : ∀ x ∈ pool, x ∈ pool2) :
+    ∀ p ∈ findVerifiedParents pool c, p ∈ findVerifiedParents pool2 c := by
+  intro p hp
+  obtain ⟨h1, h2, h3⟩ := (mem_findVerifiedParents_iff pool c p).mp hp
+  exact (mem_findVerifiedParents_iff pool2 c p).mpr ⟨h p h1, h2, h3⟩
 
 /-- name chaining is part of `isValid` -/
 theorem subj_of_isValid (p : Cert) (kind : Kind) (chain : List Cert) (o : Opts) (c : Cert)
@@ -121,14 +87,6 @@ theorem subj_of_isValid (p : Cert) (kind : Kind) (chain : List Cert) (o : Opts) 
   · simp [h] at hv
 
 /-! ### 2. `buildChains` -/
-
-/-- the key-identifier side condition along a suffix: intermediates are looked up in the intermediate
-    pool, the final certificate in the root pool -/
-def KeyIdPath (roots inters : List Cert) : List Cert → List Cert → Prop
-  | _, [] => True
-  | chain, [r] => ∀ c, chain.getLast? = some c → KeyIdOK roots c r
-  | chain, i :: r :: rest =>
-      (∀ c, chain.getLast? = some c → KeyIdOK inters c i) ∧ KeyIdPath roots inters (chain ++ [i]) (r :: rest)
 
 /-- the loop body of `buildChains` over the candidate intermediates -/
 def interStep (roots inters : List Cert) (o : Opts) (fuel : Nat) (chain : List Cert) :
@@ -216,11 +174,10 @@ theorem interStep_complete (roots inters : List Cert) (o : Opts) (fuel : Nat) (c
 /-- `buildChains_complete`: the depth-first search returns EVERY good completion of the current
     chain (`chain ++ suffix` itself, not just some chain — no candidate is dropped after a success and
     the number of chains is not limited), for every pool, option set and signature relation, provided
-    * the key identifiers do not hide a link of the suffix (`KeyIdPath`),
     * the recursion depth suffices (`suffix.length ≤ fuel`), and
     * the search was not cut by the work budget: the step counter it returns is still positive. -/
 theorem buildChains_complete (roots inters : List Cert) (o : Opts) (fuel steps : Nat) (chain suffix : List Cert)
-    (hg : GoodSuffix roots inters o chain suffix) (hk : KeyIdPath roots inters chain suffix)
+    (hg : GoodSuffix roots inters o chain suffix)
     (hfuel : suffix.length ≤ fuel)
     (hb : 0 < (buildChains roots inters o fuel steps chain).2) :
     chain ++ suffix ∈ (buildChains roots inters o fuel steps chain).1 := by
@@ -234,33 +191,30 @@ theorem buildChains_complete (roots inters : List Cert) (o : Opts) (fuel steps :
       intro h0
       rw [h0, buildChains] at hb
       simp at hb
-    match suffix, hg, hk, hfuel with
-    | [], hg, _, _ => exact absurd hg (by simp [GoodSuffix])
-    | [r], hg, hk, _ =>
+    match suffix, hg, hfuel with
+    | [], hg, _ => exact absurd hg (by simp [GoodSuffix])
+    | [r], hg, _ =>
       obtain ⟨hr, ⟨c, hc, hsig⟩, hv, hf⟩ := hg
       rw [buildChains_succ roots inters o fuel steps chain c hs hc]
       apply interStep_fst_subset
       have hmem : r ∈ findVerifiedParents roots c :=
-        findVerifiedParents_complete roots c r hr hsig
-          (selected_of_keyIdOK roots c r (subj_of_isValid r .root chain o c hc hv) (hk c hc))
+        findVerifiedParents_complete roots c r hr hsig (subj_of_isValid r .root chain o c hc hv)
       show chain ++ [r] ∈ viaRoots roots o chain c
       unfold viaRoots
       simp only [List.mem_filterMap]
       refine ⟨r, hmem, ?_⟩
       have hf' : chain.any (·.id == r.id) = false := hf
       simp [hf', hv]
-    | i :: r :: rest, hg, hk, hfuel =>
+    | i :: r :: rest, hg, hfuel =>
       obtain ⟨hi, ⟨c, hc, hsig⟩, hv, hf, hg'⟩ := hg
-      obtain ⟨hki, hk'⟩ := hk
       rw [buildChains_succ roots inters o fuel steps chain c hs hc] at hb ⊢
       have hmem : i ∈ findVerifiedParents inters c :=
-        findVerifiedParents_complete inters c i hi hsig
-          (selected_of_keyIdOK inters c i (subj_of_isValid i .intermediate chain o c hc hv) (hki c hc))
+        findVerifiedParents_complete inters c i hi hsig (subj_of_isValid i .intermediate chain o c hc hv)
       have htarget : chain ++ i :: r :: rest = (chain ++ [i]) ++ (r :: rest) := by simp
       rw [htarget]
       refine interStep_complete roots inters o fuel chain i _ hf hv ?_ _ _ hmem hb
       intro st hst
-      exact ih st (chain ++ [i]) (r :: rest) hg' hk' (by simpa using hfuel) hst
+      exact ih st (chain ++ [i]) (r :: rest) hg' (by simpa using hfuel) hst
 
 /-! ### the recursion depth used by `verify` always suffices -/
 
@@ -324,75 +278,6 @@ theorem goodSuffix_length_le (roots inters : List Cert) (o : Opts) (chain suffix
     (hg : GoodSuffix roots inters o chain suffix) : suffix.length ≤ inters.length + 1 := by
   have := goodSuffix_length_aux roots inters o suffix chain [] hg (by simp) (by simp) (by simp)
   simpa using this
-
-/-! ### returned chains satisfy the key-identifier condition (needed for the "iff") -/
-
-theorem buildChains_keyIdPath (roots inters : List Cert) (o : Opts) (fuel steps : Nat) (chain : List Cert) :
-    ∀ full ∈ (buildChains roots inters o fuel steps chain).1,
-      ∃ suffix, full = chain ++ suffix ∧ KeyIdPath roots inters chain suffix := by
-  induction fuel generalizing steps chain with
-  | zero => intro full h; simp [buildChains] at h
-  | succ fuel ih =>
-    intro full h
-    by_cases hs : steps = 0
-    · rw [buildChains] at h; simp [hs] at h
-    · cases hc : chain.getLast? with
-      | none => rw [buildChains] at h; simp [hs, hc] at h
-      | some c =>
-        rw [buildChains_succ roots inters o fuel steps chain c hs hc] at h
-        have key : ∀ (l : List Cert) (acc : List (List Cert) × Nat),
-            (∀ i ∈ l, i ∈ findVerifiedParents inters c) →
-            (∀ f ∈ acc.1, ∃ suffix, f = chain ++ suffix ∧ KeyIdPath roots inters chain suffix) →
-            ∀ f ∈ (l.foldl (interStep roots inters o fuel chain) acc).1,
-              ∃ suffix, f = chain ++ suffix ∧ KeyIdPath roots inters chain suffix := by
-          intro l
-          induction l with
-          | nil => intro acc _ hacc f hf; exact hacc f hf
-          | cons i l ihl =>
-            intro acc hl hacc f hf
-            simp only [List.foldl_cons] at hf
-            refine ihl _ (fun x hx => hl x (by simp [hx])) ?_ f hf
-            intro g hg
-            unfold interStep at hg
-            split at hg
-            · exact hacc g hg
-            · split at hg
-              · exact hacc g hg
-              · simp only [List.mem_append] at hg
-                rcases hg with hg | hg
-                · exact hacc g hg
-                · obtain ⟨suffix, hfull, hgood⟩ := ih _ _ g hg
-                  have hi := ((mem_findVerifiedParents_iff inters c i).mp (hl i (by simp))).2.2
-                  cases suffix with
-                  | nil =>
-                    -- impossible: every returned chain is strictly longer (by soundness)
-                    obtain ⟨s2, hs2, hgs⟩ := buildChains_sound roots inters o _ _ _ g hg
-                    rw [hfull] at hs2
-                    have : s2 = [] := (List.append_cancel_left hs2).symm
-                    rw [this] at hgs
-                    exact absurd hgs (by simp [GoodSuffix])
-                  | cons r rest =>
-                    refine ⟨i :: r :: rest, by rw [hfull]; simp, ?_, hgood⟩
-                    intro c' hc'
-                    rw [hc] at hc'
-                    cases hc'
-                    exact keyIdOK_of_selected inters c i hi
-        apply key _ _ (fun i hi => hi) ?_ full h
-        intro f hf
-        unfold viaRoots at hf
-        simp only [List.mem_filterMap] at hf
-        obtain ⟨r, hr, hrf⟩ := hf
-        have hsel := ((mem_findVerifiedParents_iff roots c r).mp hr).2.2
-        split at hrf
-        · cases hrf
-        · split at hrf
-          · cases hrf
-          · simp only [Option.some.injEq] at hrf
-            refine ⟨[r], hrf.symm, ?_⟩
-            intro c' hc'
-            rw [hc] at hc'
-            cases hc'
-            exact keyIdOK_of_selected roots c r hsel
 
 /-! ### 3. `verify` -/
 
@@ -482,19 +367,18 @@ theorem verify_ok_iff (roots inters : List Cert) (leaf : Cert) (o : Opts) (chain
 /-- The reference path validator: `chain` (leaf first) is an acceptable path for `leaf` iff it is the
     leaf alone and the leaf is in the root pool, or the leaf is not in the root pool and the chain is
     the leaf followed by a good suffix (pool membership, signatures + CA conditions, `isValid` at each
-    position, no repetition, ends in a root) none of whose links is hidden by key identifiers. -/
+    position, no repetition, ends in a root).  Key identifiers play no role. -/
 def GoodPath (roots inters : List Cert) (o : Opts) (leaf : Cert) (chain : List Cert) : Prop :=
   (chain = [leaf] ∧ roots.any (·.id == leaf.id) = true) ∨
   (roots.any (·.id == leaf.id) = false ∧
-    ∃ suffix, chain = [leaf] ++ suffix ∧ GoodSuffix roots inters o [leaf] suffix ∧
-      KeyIdPath roots inters [leaf] suffix)
+    ∃ suffix, chain = [leaf] ++ suffix ∧ GoodSuffix roots inters o [leaf] suffix)
 
 /-- the search was not cut by `maxChainBuildSteps` (vacuous when the leaf is itself a root: no search) -/
 def WithinBudget (roots inters : List Cert) (leaf : Cert) (o : Opts) : Prop :=
   roots.any (·.id == leaf.id) = false →
     0 < (buildChains roots inters o (roots.length + inters.length + 2) maxSteps [leaf]).2
 
-/-- soundness of the candidates, in the strengthened form (no budget hypothesis) -/
+/-- soundness of the candidates (no budget hypothesis) -/
 theorem candidates_sound (roots inters : List Cert) (leaf : Cert) (o : Opts) (chain : List Cert)
     (h : chain ∈ candidates roots inters leaf o) : GoodPath roots inters o leaf chain := by
   unfold candidates at h
@@ -503,20 +387,17 @@ theorem candidates_sound (roots inters : List Cert) (leaf : Cert) (o : Opts) (ch
     exact Or.inl ⟨h, hroot⟩
   · simp only [hroot, Bool.false_eq_true, if_false] at h
     obtain ⟨s1, h1, hg⟩ := buildChains_sound roots inters o _ _ [leaf] chain h
-    obtain ⟨s2, h2, hk⟩ := buildChains_keyIdPath roots inters o _ _ [leaf] chain h
-    have : s1 = s2 := List.append_cancel_left (h1.symm.trans h2)
-    subst this
-    exact Or.inr ⟨by simpa using hroot, s1, h1, hg, hk⟩
+    exact Or.inr ⟨by simpa using hroot, s1, h1, hg⟩
 
 /-- completeness of the candidates within the budget -/
 theorem candidates_complete (roots inters : List Cert) (leaf : Cert) (o : Opts) (chain : List Cert)
     (hb : WithinBudget roots inters leaf o) (h : GoodPath roots inters o leaf chain) :
     chain ∈ candidates roots inters leaf o := by
   unfold candidates
-  rcases h with ⟨rfl, hroot⟩ | ⟨hroot, suffix, rfl, hg, hk⟩
+  rcases h with ⟨rfl, hroot⟩ | ⟨hroot, suffix, rfl, hg⟩
   · simp [hroot]
   · simp only [hroot, Bool.false_eq_true, if_false]
-    apply buildChains_complete roots inters o _ _ [leaf] suffix hg hk
+    apply buildChains_complete roots inters o _ _ [leaf] suffix hg
     · have := goodSuffix_length_le roots inters o [leaf] suffix hg
       omega
     · exact hb hroot
@@ -528,22 +409,22 @@ theorem candidates_exact (roots inters : List Cert) (leaf : Cert) (o : Opts) (ch
   ⟨candidates_sound roots inters leaf o chain, candidates_complete roots inters leaf o chain hb⟩
 
 /-- `verify_complete`: if the leaf passes its own checks (no unhandled critical extension, `isValid`,
-    host name when one is requested), is not itself in the root pool, and a good suffix exists whose
-    links are not hidden by key identifiers and whose chain is acceptable for the requested key usages,
+    host name when one is requested), is not itself in the root pool, and a good suffix exists
+    whose chain is acceptable for the requested key usages,
     then — unless the search ran out of its work budget — `Verify` succeeds and the returned chains
     contain that very chain (in particular the result is non-empty). -/
 theorem verify_complete (roots inters : List Cert) (leaf : Cert) (o : Opts) (suffix : List Cert)
     (hcrit : leaf.critical = false) (hv : isValid leaf .leaf [] o = none)
     (hh : o.dnsName.length > 0 → verifyHostname leaf o = true)
     (hnr : roots.any (·.id == leaf.id) = false)
-    (hg : GoodSuffix roots inters o [leaf] suffix) (hk : KeyIdPath roots inters [leaf] suffix)
+    (hg : GoodSuffix roots inters o [leaf] suffix)
     (hu : usageOK o ([leaf] ++ suffix) = true)
     (hb : 0 < (buildChains roots inters o (roots.length + inters.length + 2) maxSteps [leaf]).2) :
     ∃ chains, verify roots inters leaf o = .ok chains ∧ chains ≠ [] ∧
       ([leaf] ++ suffix).map (·.id) ∈ chains := by
   have hmem : [leaf] ++ suffix ∈ (candidates roots inters leaf o).filter (usageOK o) := by
     rw [List.mem_filter]
-    exact ⟨candidates_complete roots inters leaf o _ (fun _ => hb) (Or.inr ⟨hnr, suffix, rfl, hg, hk⟩), hu⟩
+    exact ⟨candidates_complete roots inters leaf o _ (fun _ => hb) (Or.inr ⟨hnr, suffix, rfl, hg⟩), hu⟩
   refine ⟨_, (verify_ok_iff roots inters leaf o _).mpr ⟨hcrit, hv, hh, List.ne_nil_of_mem hmem, rfl⟩, ?_, ?_⟩
   · intro h
     have := List.mem_map_of_mem (f := fun (c : List Cert) => c.map (·.id)) hmem
@@ -599,8 +480,7 @@ theorem verify_iff_exists_good_path (roots inters : List Cert) (leaf : Cert) (o 
       List.mem_filter.mpr ⟨candidates_complete roots inters leaf o ch hb hg, hu⟩
     exact ⟨_, (verify_ok_iff roots inters leaf o _).mpr ⟨h1, h2, h3, List.ne_nil_of_mem hmem, rfl⟩⟩
 
-/-- without any budget hypothesis the "only if" half still holds (this is `verify_sound` again, with
-    the key-identifier condition added) -/
+/-- without any budget hypothesis the "only if" half still holds (this is `verify_sound` again) -/
 theorem verify_only_if_good_path (roots inters : List Cert) (leaf : Cert) (o : Opts) (chains : List (List Nat))
     (h : verify roots inters leaf o = .ok chains) :
     chains ≠ [] ∧ ∀ ids ∈ chains,
@@ -622,19 +502,16 @@ theorem ex_goodSuffix : GoodSuffix [exRoot] [exInt] exOpts [exLeaf] [exInt, exRo
   ⟨by decide, ⟨exLeaf, rfl, by decide⟩, by decide, by unfold Fresh; decide,
    by decide, ⟨exInt, rfl, by decide⟩, by decide, by unfold Fresh; decide⟩
 
-theorem ex_keyIdPath : KeyIdPath [exRoot] [exInt] [exLeaf] [exInt, exRoot] :=
-  ⟨fun c hc => Or.inl (by cases hc; rfl), fun c hc => Or.inl (by cases hc; rfl)⟩
-
 /-- `verify_complete` applies (every hypothesis is discharged) and yields the chain leaf, intermediate, root -/
 example : ∃ chains, verify [exRoot] [exInt] exLeaf exOpts = .ok chains ∧ chains ≠ [] ∧ [3, 2, 1] ∈ chains :=
   verify_complete [exRoot] [exInt] exLeaf exOpts [exInt, exRoot] (by decide) (by decide) (by decide) (by decide)
-    ex_goodSuffix ex_keyIdPath (by decide) (by decide)
+    ex_goodSuffix (by decide) (by decide)
 
 example : [exLeaf, exInt, exRoot] ∈ (buildChains [exRoot] [exInt] exOpts 2 3 [exLeaf]).1 :=
-  buildChains_complete [exRoot] [exInt] exOpts 2 3 [exLeaf] [exInt, exRoot] ex_goodSuffix ex_keyIdPath
+  buildChains_complete [exRoot] [exInt] exOpts 2 3 [exLeaf] [exInt, exRoot] ex_goodSuffix
     (by decide) (by decide)
 
-/-- the same search by evaluation; and the three hypotheses of `buildChains_complete` are each needed:
+/-- the same search by evaluation; and the two hypotheses of `buildChains_complete` other than the good suffix:
     budget 1 is cut before the intermediate is expanded (returned counter 0, nothing found);
     budget 2 finds the chain but ends at 0 (the hypothesis `0 < …` is sufficient, not necessary);
     depth 1 < |suffix| finds nothing although budget is left. -/
@@ -643,17 +520,18 @@ example : buildChains [exRoot] [exInt] exOpts 2 1 [exLeaf] = ([], 0) := by decid
 example : buildChains [exRoot] [exInt] exOpts 2 2 [exLeaf] = ([[exLeaf, exInt, exRoot]], 0) := by decide
 example : buildChains [exRoot] [exInt] exOpts 1 3 [exLeaf] = ([], 2) := by decide
 
-/-- The key-identifier condition cannot be dropped: `hidLeaf` is correctly signed by the trusted root
-    `exRoot` (a `GoodSuffix` exists), but it carries AuthorityKeyId 7, `exRoot` has no SubjectKeyId,
-    and an unrelated trusted certificate `decoy` has SubjectKeyId 7.  The lookup by key id returns
-    only `decoy`, the lookup by name is skipped, and `Verify` fails; without `decoy` in the pool the
-    same leaf verifies. -/
+/-- Key identifiers hide nothing (this example showed the opposite for the rule as found, where `Verify`
+    answered "no chain"): `hidLeaf` is correctly signed by the trusted root `exRoot`, carries AuthorityKeyId 7,
+    `exRoot` has no SubjectKeyId, and an unrelated trusted certificate `decoy` has SubjectKeyId 7.  The lookup by
+    key id returns `decoy` (which did not sign the leaf), the lookup by name adds `exRoot`, and `Verify` returns
+    the chain - the same one as without `decoy` in the pool. -/
 def decoy : Cert := { exRoot with id := 4, key := 77, signer := 77, ski := some 7 }
 def hidLeaf : Cert := { exLeaf with iss := 10, signer := 10, aki := some 7 }
 
 example : GoodSuffix [exRoot, decoy] [] exOpts [hidLeaf] [exRoot] :=
   ⟨by decide, ⟨hidLeaf, rfl, by decide⟩, by decide, by unfold Fresh; decide⟩
-example : (match verify [exRoot, decoy] [] hidLeaf exOpts with | .noChain => true | _ => false) = true := by decide
+example : (match verify [exRoot, decoy] [] hidLeaf exOpts with | .ok cs => cs | _ => []) = [[3, 1]] := by decide
+example : (match verify [decoy, exRoot] [] hidLeaf exOpts with | .ok cs => cs | _ => []) = [[3, 1]] := by decide
 example : (match verify [exRoot] [] hidLeaf exOpts with | .ok cs => cs | _ => []) = [[3, 1]] := by decide
 
 end Props.C10
